@@ -549,6 +549,27 @@ func genC14lit(g *G) {
 	for _, e := range []string{"-(-5)=>5", "- -5=>5", "-(-2.5)=>2.5", "-G_NEG=>7", "-G_NEGF=>2.5", "1 - -5=>6", "-(5)=>-5", "-(1 - 2)=>1", "not (not true)=>true", "-0=>0"} {
 		add("expr", e)
 	}
+	// (c0) the hand-written files of C14gen, each under a customary and under a hostile file name (the header comment names the file)
+	for hi, hsrc := range jsHandSources {
+		for _, hname := range []string{"hand.soy", handNames[hi%len(handNames)], handNames[(hi+3)%len(handNames)]} {
+			fs := []srcFile{{hname, hsrc}}
+			globals := jsGlobalsFull()
+			reg, err := jsCompile(fs, globals)
+			if err != nil {
+				continue
+			}
+			var mbs = []*jsMemBundle{nil}
+			if len(allMsgNodes(reg)) > 0 {
+				mbs = append(mbs, translationsAll(reg))
+			}
+			for _, fm := range []string{"es5", "es6"} {
+				for _, mb := range mbs {
+					g.Add(Case{Req: req("c14parse", encSources(fs), sxGlobals(globals), sxMsgs(mb), hxs(hname), fm), NT: true, Class: "hand-parse-" + fm, NoModel: true,
+						Note: fmt.Sprintf("hand#%d file=%q %s", hi, hname, fm)})
+				}
+			}
+		}
+	}
 	// (c) all-feature bundles: every file parses and defines its templates
 	nb := g.N(120, 2500)
 	bg := newJsBundleGen(r)
